@@ -46,7 +46,7 @@ class Env:
         for f in ("vt_trace_get", "vt_ledger_live", "vt_ledger_errors"):
             getattr(self.lib, f).restype = ctypes.c_char_p
         self.pools = {}
-        for cls in ("VA", "VB", "VC", "VM"):
+        for cls in ("VA", "VB", "VC", "VM") + tuple(L.LATTICE_CLASSES):
             if hasattr(self.mod, cls):
                 self.pools[cls] = [getattr(self.mod, cls)() for _ in range(4)]
         self.objectv = object()
@@ -211,6 +211,9 @@ class AtomRun:
             if c == "VM":
                 labels[args[i].vt_ida()] = "a%d.A" % i
                 labels[args[i].vt_idc()] = "a%d.C" % i
+            elif c in L.LATTICE_ROOTS:
+                for r in L.LATTICE_ROOTS[c]:
+                    labels[getattr(args[i], "vt_id_" + r.lower())()] = "a%d.%s" % (i, r)
             elif c in L.INSTANCE:
                 labels[args[i].vt_id()] = "a%d" % i
         names = a["ovs"][0]["names"]
